@@ -74,6 +74,7 @@ def monitor_trace(tr):
     raising = set(cfg['raising'])
     hist_calls = 0
     evaluated_ok = set()        # keys evaluated successfully while a lossless archive stayed attached
+    seen_ok = set()             # keys seen in memory or in the archive while a lossless archive was attached (since the last reset)
     for rec in tr['recs']:
         op, out, b, a = rec['op'], rec['out'], rec['before'], rec['after']
         kind = op[0]
@@ -122,8 +123,13 @@ def monitor_trace(tr):
                         viol.append(dict(prop='C20', i=rec['i'], sig=dict(kind='copy-differs', field=fld),
                                          msg='restored copy differs in %s: original %r copy %r' % (what, out.get('orig'), out.get('copy'))))
             continue
+        if b.get('arch') is not None and 'error' not in b:
+            seen_ok |= set(k_ for k_, _ in b['mem']) | set(k_ for k_, _ in b['arch'])
         if kind in ('clear', 'off', 'on', 'setarch', 'extdel') or b['arch'] is None:
             evaluated_ok = set()    # the property allows re-evaluation after these
+            # ... but what is RESIDENT when a lossless archive replaces another one is still a stored result: from here on it has to
+            # reach the new archive before it leaves memory
+            seen_ok = set(k_ for k_, _ in a['mem']) if (kind == 'setarch' and a.get('arch') is not None and 'error' not in a) else set()
         if kind not in ('call', 'callbad'):
             if kind in ('lookup', 'key', 'info', 'archivedq'):
                 if (b['mem'], b['arch'], b['swap'], b['stats']) != (a['mem'], a['arch'], a['swap'], a['stats']) or (isinstance(out, dict) and out.get('evals')):
@@ -191,6 +197,9 @@ def monitor_trace(tr):
             else:
                 cls = 'hit' if in_mem else ('load' if in_arch else 'miss')
             tags[cls] += 1
+            if evals and completed and archived and algo != 'no' and k in seen_ok and k not in evaluated_ok and not cfg.get('refuse'):
+                viol.append(dict(prop='C02', i=rec['i'], sig=dict(kind='reevaluated-although-stored-earlier', algo=algo, purge=cfg['purge']),
+                                 msg='x=%r evaluated although its result had been in memory or in the archive earlier, a lossless archive stayed attached since and nothing was cleared' % (x,)))
             if evals and completed and archived:
                 if k in evaluated_ok:
                     viol.append(dict(prop='C02', i=rec['i'], sig=dict(kind='reevaluated-with-archive', algo=algo, purge=cfg['purge']),
